@@ -134,6 +134,19 @@ class Interp(EngineBase):
 
     def ev_ListComp(self, e):
         g0 = e.generators[0] if e.generators else None
+        if len(e.generators) == 1 and not g0.ifs and isinstance(g0.target, ast.Name) and isinstance(g0.iter, ast.Call) \
+                and isinstance(g0.iter.func, ast.Name) and g0.iter.func.id == 'range' and len(g0.iter.args) == 1 \
+                and not any(isinstance(n_, ast.Name) and n_.id == g0.target.id for n_ in ast.walk(e.elt)):
+            # [E for x in range(N)] with E independent of x: N copies of the value of E
+            nterm = self.num(self.ev(g0.iter.args[0]))
+            v = self.ev(e.elt)
+            t = self.as_int_term(v)
+            res = fresh_list('rep', None)
+            cnt_n = z3.If(nterm >= 0, z3.ToInt(nterm), 0)
+            self.st.assume(res.n == cnt_n)
+            self.st.assume(res.cnt == z3.Store(EMPTY_CNT, t, cnt_n))
+            self.bag_facts(res)
+            return res
         if len(e.generators) == 1 and not g0.ifs and isinstance(g0.target, ast.Name) and isinstance(e.elt, ast.IfExp) \
                 and isinstance(e.elt.body, ast.Constant) and isinstance(e.elt.orelse, ast.Constant) \
                 and e.elt.body.value == 1 and e.elt.orelse.value == 0:
@@ -252,6 +265,15 @@ class Interp(EngineBase):
         return self.getattr(base, e.attr, e)
 
     def getattr(self, base, attr, node):
+        if isinstance(base, Sym) and base.kind == 'dframe':
+            # pandas (ASSUMED, contracts/deps.py): .T swaps rows and columns; other attributes are methods
+            DFR, DFC = z3.Function('df_rows', I, I), z3.Function('df_cols', I, I)
+            if attr == 'T':
+                self.note_assumed('pandas.DataFrame.T')
+                f = Sym('dframe', z3.Int(fresh_name('frameT')))
+                self.st.assume(z3.And(DFR(f.t) == DFC(base.t), DFC(f.t) == DFR(base.t)))
+                return f
+            return BoundMethod(base, attr)
         if isinstance(base, ObjV):
             if attr in base.fields:
                 return base.fields[attr]
@@ -841,6 +863,15 @@ class Interp(EngineBase):
         if isinstance(base, DictObj):
             return self.dict_set(base, idx, val)
         if isinstance(base, Opaque):
+            return
+        if isinstance(base, Sym) and base.kind == 'dframe':
+            # df[col] = list: pandas (ASSUMED) requires one value per row (ValueError otherwise) and keeps the row count
+            self.note_assumed('pandas.DataFrame.__setitem__')
+            DFR = z3.Function('df_rows', I, I)
+            if isinstance(val, ListObj):
+                self.check_or_raise(val.n == DFR(base.t), 'ValueError', node, 'length of values does not match length of index')
+            elif isinstance(val, PyList):
+                self.check_or_raise(DFR(base.t) == len(val.items), 'ValueError', node, 'length of values does not match length of index')
             return
         if isinstance(base, Sym) and base.kind == 'ref' and base.cls in self.spec.entities and isinstance(idx, str) \
                 and idx in self.spec.entities[base.cls]:
